@@ -30,11 +30,13 @@ VARIABLES tr, l,
           evs,      \* API events so far, each with field at = number of packs emitted before it
           drained,  \* the final drain event was consumed
           stops,    \* sequence of [c, step]: StopReadCollection calls
-          addparts, \* sequence of [c, p, registered]: AddPartition calls with the shards registered at that instant
+          addparts, \* sequence of [c, p, registered, nreads, step]: AddPartition calls with the shards registered at that instant
+          starts,   \* sequence of [c, step]: StartReadCollection calls
+          cfeeds,   \* feeds refused because the stream had been closed: [s, nreads, nevs, step]
           fl,       \* downstream channel q -> highest checkpoint (seek) time among the collections started so far with a shard on q
           kfused
 
-vars == <<tr, l, outs, reads, srcmsg, cnt, pend, evs, drained, stops, addparts, fl, kfused>>
+vars == <<tr, l, outs, reads, srcmsg, cnt, pend, evs, drained, stops, addparts, starts, cfeeds, fl, kfused>>
 
 Params == Traces[tr].params
 Floor == IF "floor" \in DOMAIN Params THEN Params.floor ELSE 0
@@ -43,7 +45,7 @@ TaskID == "task1"
 
 TInit == /\ tr \in 1..Len(Traces) /\ l = 1
          /\ outs = <<>> /\ reads = <<>> /\ srcmsg = <<>> /\ cnt = 0 /\ pend = <<>> /\ evs = <<>>
-         /\ drained = FALSE /\ stops = <<>> /\ addparts = <<>> /\ fl = <<>> /\ kfused = {}
+         /\ drained = FALSE /\ stops = <<>> /\ addparts = <<>> /\ starts = <<>> /\ cfeeds = <<>> /\ fl = <<>> /\ kfused = {}
 
 IsTick(m) == m.k = "tick"
 NonTick(p) == SelectSeq(p.msgs, LAMBDA m : ~IsTick(m))
@@ -96,7 +98,25 @@ Complete ==
          LET s == reads[r].s  pk == reads[r].pack
              c == Catalog[CHOOSE i \in 1..Len(Catalog) : s \in DOMAIN Catalog[i].pairs] IN
          Len(Expected(c, pk)) > 0 => \E i \in 1..Len(outs) : LabelOK(outs[i]) /\ StreamOfPack(outs[i]) = s /\ PackId(outs[i]) = pk.id
-C01Inv == /\ \A i \in 1..Len(outs) : LabelOK(outs[i]) /\ PackExact(outs[i])
+\* shard s has read (within the first n reads) the drop message of obj ("" = the collection)
+HasReadDrop(s, obj, n) == \E r \in 1..n : reads[r].s = s /\ \E i \in 1..Len(reads[r].pack.msgs) :
+                              LET m == reads[r].pack.msgs[i] IN
+                              (obj = "" /\ m.k = "dropc") \/ (obj # "" /\ m.k = "dropp" /\ m.p = obj)
+ShardsOfC(c) == {c.src_v[i] : i \in 1..Len(c.src_v)}
+DroppedAtStart(c) == "dropped" \in DOMAIN c /\ c.dropped
+\* the source stream of a live shard stays readable: CDC closes a shard's stream only when its collection was stopped,
+\* when the shard has read its drop-collection message (or the collection was dropped at start), or after an error
+\* (what was never read can never be handed over: a closed live stream loses everything that follows)
+StreamColl(sv) == Catalog[CHOOSE i \in 1..Len(Catalog) : sv \in DOMAIN Catalog[i].pairs]
+LiveStreamsReadable ==
+    \A i \in 1..Len(cfeeds) :
+       LET f == cfeeds[i]  c == StreamColl(f.s) IN
+       \/ \E j \in 1..Len(stops) : stops[j].c = c.name /\ stops[j].step < f.step
+       \/ HasReadDrop(f.s, "", f.nreads)
+       \/ DroppedAtStart(c)
+       \/ \E j \in 1..f.nevs : evs[j].type = "ReplicateError"
+C01Inv == /\ LiveStreamsReadable
+          /\ \A i \in 1..Len(outs) : LabelOK(outs[i]) /\ PackExact(outs[i])
           /\ ReadOrder(outs, reads, FALSE)
           /\ Complete
 
@@ -164,12 +184,6 @@ CollByName(n) == Catalog[CHOOSE i \in 1..Len(Catalog) : Catalog[i].name = n]
 KnownName(n) == \E i \in 1..Len(Catalog) : Catalog[i].name = n
 IsDropC(ev) == ev.type = "DropCollection"
 IsDropP(ev) == ev.type = "DropPartition"
-\* shard s has read (within the first n reads) the drop message of obj ("" = the collection)
-HasReadDrop(s, obj, n) == \E r \in 1..n : reads[r].s = s /\ \E i \in 1..Len(reads[r].pack.msgs) :
-                              LET m == reads[r].pack.msgs[i] IN
-                              (obj = "" /\ m.k = "dropc") \/ (obj # "" /\ m.k = "dropp" /\ m.p = obj)
-ShardsOfC(c) == {c.src_v[i] : i \in 1..Len(c.src_v)}
-DroppedAtStart(c) == "dropped" \in DOMAIN c /\ c.dropped
 DropOnce == \A i, j \in 1..Len(evs) : (i < j /\ evs[i].type = evs[j].type /\ (IsDropC(evs[i]) \/ IsDropP(evs[i]))
                                           /\ evs[i].cname = evs[j].cname /\ evs[i].pname = evs[j].pname) => FALSE
 DropNamed(ev) == /\ KnownName(ev.cname)
@@ -182,8 +196,11 @@ DropNamed(ev) == /\ KnownName(ev.cname)
 \* known finding C04_partition_barrier_size: the partition barrier is sized by the handlers that hold the collection
 \* record when AddPartition runs; with the finding enabled a partition drop may be issued once every shard that was
 \* registered at that instant has read it
-RegisteredAtAddPart(c, p) == IF \E i \in 1..Len(addparts) : addparts[i].c = c.name /\ addparts[i].p = p
-                               THEN LET a == addparts[CHOOSE i \in 1..Len(addparts) : addparts[i].c = c.name /\ addparts[i].p = p] IN
+HasAddPart(c, p) == \E i \in 1..Len(addparts) : addparts[i].c = c.name /\ addparts[i].p = p
+LastAddPart(c, p) == addparts[CHOOSE i \in 1..Len(addparts) : addparts[i].c = c.name /\ addparts[i].p = p
+                                 /\ \A j \in 1..Len(addparts) : (addparts[j].c = c.name /\ addparts[j].p = p) => j <= i]
+RegisteredAtAddPart(c, p) == IF HasAddPart(c, p)
+                               THEN LET a == LastAddPart(c, p) IN
                                     {a.registered[i] : i \in 1..Len(a.registered)}
                                ELSE ShardsOfC(c)
 AfterAllShards(ev, strict) ==
@@ -202,18 +219,31 @@ SilentAfterDrop(p) ==
       LET s == StreamOfPack(p)  no == PackNo(s, PackId(p))  d == NonTick(p) IN
       /\ (Len(d) > 0 => no <= DropPackNo(s, ""))
       /\ \A i \in 1..Len(d) : d[i].k \in {"ins", "del"} /\ d[i].pname # "" => no <= DropPackNo(s, d[i].pname)
+\* (a drop request after a stop is fine once the collection has been started again)
 StopNeverDrops == \A i \in 1..Len(evs) : (IsDropC(evs[i]) \/ IsDropP(evs[i])) =>
-                     \A j \in 1..Len(stops) : stops[j].c = evs[i].cname => evs[i].step < stops[j].step
+                     \A j \in 1..Len(stops) : stops[j].c = evs[i].cname =>
+                        \/ evs[i].step < stops[j].step
+                        \/ \E k \in 1..Len(starts) : starts[k].c = evs[i].cname /\ stops[j].step < starts[k].step /\ starts[k].step <= evs[i].step
 NDrops(type, cn, pn) == Cardinality({i \in 1..Len(evs) : evs[i].type = type /\ evs[i].cname = cn /\ evs[i].pname = pn})
-Stopped(c) == \E j \in 1..Len(stops) : stops[j].c = c.name
+\* stopped and not started again
+Stopped(c) == \E j \in 1..Len(stops) : stops[j].c = c.name /\ ~\E k \in 1..Len(starts) : starts[k].c = c.name /\ starts[k].step > stops[j].step
+LastStartStep(c) == LET S == {0} \cup {starts[k].step : k \in {x \in 1..Len(starts) : starts[x].c = c.name}} IN CHOOSE x \in S : \A y \in S : y <= x
+\* every shard held the collection record when the partition was (last) added - after the last (re)start - and none had
+\* read the partition's drop yet: nothing can go wrong any more, the request is due even if error events were raised
+FullAtAddPart(c, pn) == /\ HasAddPart(c, pn)
+                        /\ LET a == LastAddPart(c, pn) IN
+                           /\ a.step > LastStartStep(c)
+                           /\ {a.registered[i] : i \in 1..Len(a.registered)} = ShardsOfC(c)
+                           /\ \A sh \in ShardsOfC(c) : ~HasReadDrop(sh, pn, a.nreads)
 SeekGiven == "seek_ts" \in DOMAIN Params /\ Params.seek_ts > 0
 Delivered ==
-    (drained /\ NoError) =>
+    drained =>
       \A ci \in 1..Len(Catalog) : LET c == Catalog[ci] IN
         (~Stopped(c) /\ ((\E r \in 1..Len(reads) : reads[r].s \in ShardsOfC(c)) \/ (DroppedAtStart(c) /\ SeekGiven))) =>
-          /\ (((DroppedAtStart(c) /\ SeekGiven) \/ \A s \in ShardsOfC(c) : HasReadDrop(s, "", Len(reads))) => NDrops("DropCollection", c.name, "") = 1)
+          /\ ((NoError /\ ((DroppedAtStart(c) /\ SeekGiven) \/ \A s \in ShardsOfC(c) : HasReadDrop(s, "", Len(reads)))) => NDrops("DropCollection", c.name, "") = 1)
           /\ \A pn \in DOMAIN c.parts :
-                ((\A s \in ShardsOfC(c) : HasReadDrop(s, pn, Len(reads))) /\ NDrops("DropCollection", c.name, "") = 0) => NDrops("DropPartition", c.name, pn) = 1
+                ((NoError \/ FullAtAddPart(c, pn)) /\ (\A s \in ShardsOfC(c) : HasReadDrop(s, pn, Len(reads))) /\ NDrops("DropCollection", c.name, "") = 0)
+                   => NDrops("DropPartition", c.name, pn) = 1
 C04Inv == /\ DropOnce
           /\ \A i \in 1..Len(evs) : (IsDropC(evs[i]) \/ IsDropP(evs[i])) => DropNamed(evs[i]) /\ AfterAllShards(evs[i], FALSE)
           /\ \A i \in 1..Len(outs) : SilentAfterDrop(outs[i])
@@ -257,8 +287,11 @@ TStep ==
           outs' = outs \o [i \in 1..Len(e.out) |-> e.out[i] @@ [cs |-> csOf(i)]]
        /\ evs' = evs \o [i \in 1..Len(e.evs) |-> e.evs[i] @@ [at |-> Len(outs), nreads |-> Len(reads), step |-> l]]
        /\ stops' = IF e.op = "stop" THEN Append(stops, [c |-> e.c, step |-> l]) ELSE stops
-       /\ addparts' = IF e.op = "addpart" /\ ~e.err THEN Append(addparts, [c |-> e.c, p |-> e.p, registered |-> e.registered]) ELSE addparts
+       /\ addparts' = IF e.op = "addpart" /\ ~e.err THEN Append(addparts, [c |-> e.c, p |-> e.p, registered |-> e.registered, nreads |-> Len(reads), step |-> l]) ELSE addparts
+       /\ starts' = IF e.op = "start" THEN Append(starts, [c |-> e.c, step |-> l]) ELSE starts
        /\ drained' = (drained \/ e.op = "drain")
+       /\ cfeeds' = IF e.op = "feed" /\ e.res = "closed"
+                      THEN Append(cfeeds, [s |-> e.s, nreads |-> Len(reads), nevs |-> Len(evs), step |-> l]) ELSE cfeeds
        /\ IF e.op = "start" /\ "seeks" \in DOMAIN e /\ Len(e.seeks) > 0 /\ KnownName(e.c)
             THEN LET c == CollByName(e.c)
                      idx == {i \in 1..Len(e.seeks) : e.seeks[i].ch \in DOMAIN c.bypch}
